@@ -202,6 +202,7 @@ func wrapAnalyzers(all []*analysis.Analyzer) {
 }
 
 type runOpts struct {
+	revBases   bool
 	dir        string
 	sequential bool
 	sanity     bool
@@ -209,15 +210,22 @@ type runOpts struct {
 	timeout    time.Duration
 }
 
-func loadProgram(p *program, root string) ([]*packages.Package, map[string]*packages.Package, error) {
+// revBases: the files of every package are added to the FileSet in reverse order, so that a later file of pass.Files has
+// the lower position base (go/packages parses the files of a package concurrently: any base order is a possible run).
+func loadProgram(p *program, root string, revBases bool) ([]*packages.Package, map[string]*packages.Package, error) {
 	fset := token.NewFileSet()
 	own := map[string]*types.Package{}
 	byPath := map[string]*packages.Package{}
 	var list []*packages.Package
 	for _, pp := range p.Pkgs {
-		var files []*ast.File
-		var names []string
-		for _, f := range pp.Files {
+		files := make([]*ast.File, len(pp.Files))
+		names := make([]string, len(pp.Files))
+		for k := range pp.Files {
+			idx := k
+			if revBases {
+				idx = len(pp.Files) - 1 - k
+			}
+			f := pp.Files[idx]
 			full := filepath.Join(root, f.Name)
 			if err := os.MkdirAll(filepath.Dir(full), 0o755); err != nil {
 				return nil, nil, err
@@ -229,8 +237,8 @@ func loadProgram(p *program, root string) ([]*packages.Package, map[string]*pack
 			if err != nil {
 				return nil, nil, fmt.Errorf("parse %s: %v", f.Name, err)
 			}
-			files = append(files, af)
-			names = append(names, full)
+			files[idx] = af
+			names[idx] = full
 		}
 		info := &types.Info{
 			Types:        map[ast.Expr]types.TypeAndValue{},
@@ -287,7 +295,7 @@ func analyzeProgram(p *program, o runOpts) (res progResult) {
 	defer func() { res.Millis = time.Since(t0).Milliseconds() }()
 	root := filepath.Join(o.dir, "p_"+sanitize(p.ID))
 	defer os.RemoveAll(root)
-	list, byPath, err := loadProgram(p, root)
+	list, byPath, err := loadProgram(p, root, o.revBases)
 	if err != nil {
 		res.Err = err.Error()
 		return
@@ -426,6 +434,7 @@ func runPrograms(args []string) int {
 	sanity := fs.Bool("sanity", true, "checker.Options.SanityCheck (gob round trip of every inherited fact)")
 	dump := fs.Bool("dump", false, "include annotationreader / ignorereader results of the named packages")
 	jobs := fs.Int("j", runtime.NumCPU(), "programs analysed concurrently")
+	revBases := fs.Bool("revbases", false, "add the files of each package to the FileSet in reverse order (position bases descend along pass.Files)")
 	timeout := fs.Duration("timeout", 60*time.Second, "per-program wall-clock bound (C10)")
 	tracePath := fs.String("trace", "", "record Start/Export/Import/End events of every action to this NDJSON file (use -j 1)")
 	_ = fs.Parse(args)
@@ -475,7 +484,7 @@ func runPrograms(args []string) int {
 	if *exclChecks != "\x00" {
 		_ = cf.Set("exclude-checks", *exclChecks)
 	}
-	o := runOpts{dir: *dir, sequential: *seq, sanity: *sanity, dump: *dump, timeout: *timeout}
+	o := runOpts{revBases: *revBases, dir: *dir, sequential: *seq, sanity: *sanity, dump: *dump, timeout: *timeout}
 
 	in := make(chan *program, 64)
 	out := make(chan progResult, 64)
